@@ -31,7 +31,11 @@ Idx(keys, k) == IF \E j \in 1..Len(keys) : keys[j] = k THEN CHOOSE j \in 1..Len(
 \* (Awaitable is_type_of / resolve_type results are not recorded: the default type resolver legitimately leaves
 \* the checks of the remaining possible types running once one type matched.)
 Orphaned(c, at) == c.response.data = Null \/ LET w == W!Walk(c.response.data, at) IN ~w.found \/ w.stoppedAtNull \/ w.v = Null
-SerialOK(c) == \A p \in 1..Len(c.log) : c.log[p].r = c.log[p].e \/ Orphaned(c, c.log[p].at) \/ Orphaned(c, c.log[p].rat)
+\* Entries with cw = TRUE: a resolver coroutine below root field e had been CANCELLED (by a failed sibling) but had not finished
+\* unwinding when the resolver at rat was invoked. A failed field waits for the siblings it cancels (gather_with_cancel), so
+\* the next root field never starts over such a coroutine - orphaned or not.
+SerialOK(c) == \A p \in 1..Len(c.log) :
+                  c.log[p].r = c.log[p].e \/ (~c.log[p].cw /\ (Orphaned(c, c.log[p].at) \/ Orphaned(c, c.log[p].rat)))
 
 Clause(c) ==
   LET r == Execute(c) IN
